@@ -232,7 +232,7 @@ def precision_part(chk, exprs):
                 # temporary directory on another file system for every second selection
                 old_tmp = tempfile.tempdir
                 if nsel % 2 == 0:
-                    other_fs = tempfile.mkdtemp(prefix="rebench-verif.tmp.", dir="/var/tmp")
+                    other_fs = tempfile.mkdtemp(prefix="rebench-verif.tmp.", dir="/dev/shm" if os.path.isdir("/dev/shm") else "/var/tmp")
                     tempfile.tempdir = other_fs
                     os.environ["TMPDIR"] = other_fs
                 try:
@@ -398,11 +398,33 @@ def atomic_part(chk):
                 return o_parse(self, *a, **k)
             os.replace, os.unlink, os.rename, shutil.move = w("os.replace", o_replace), w("os.unlink", o_unlink), w("os.rename", o_rename), w("shutil.move", o_move)
             pers._FilePersistence._parse_data_line = parse_hook
+
+            # what shutil does internally when it has to copy (another file system): every file it opens for writing
+            def shutil_open(file, mode="r", *a, **k):
+                fh = open(file, mode, *a, **k)
+                if "w" in mode:
+                    snap("after shutil opened %s for writing" % os.path.basename(str(file)))
+                return fh
+            shutil.open = shutil_open
+            # every second scenario: the default temporary directory is on another file system than the data files
+            old_tmp = tempfile.tempdir
+            other_fs = None
+            if i % 2 == 1 and os.path.isdir("/dev/shm"):
+                other_fs = tempfile.mkdtemp(prefix="rebench-verif.tmp.", dir="/dev/shm")
+                tempfile.tempdir = other_fs
+                os.environ["TMPDIR"] = other_fs
+                case["TMPDIR"] = "on another file system"
+                chk.count("atomic_scenarios_tmpdir_on_another_file_system")
             try:
                 resl = dh.impl_load(sc["raw"], sc["files"]["X1"], exp_name=xsel, rerun=True, run_filter=filt)
             finally:
                 os.replace, os.unlink, os.rename, shutil.move = o_replace, o_unlink, o_rename, o_move
                 pers._FilePersistence._parse_data_line = o_parse
+                del shutil.open
+                tempfile.tempdir = old_tmp
+                os.environ.pop("TMPDIR", None)
+                if other_fs:
+                    shutil.rmtree(other_fs, ignore_errors=True)
             for (label, f, content) in snaps:
                 nsnap += 1
                 if content != old[f] and content != new[f]:
